@@ -63,6 +63,9 @@ CLAIMED = {
  "C16": dict(cat="proof", tech="Coq rule model: decision functions transcribed from the headers' constraint / explicit(...) expressions over type descriptors; theorems relate them to the specification's rules and prove that implicit conversions are total and value-preserving; compile-time correspondence of std::is_constructible / is_convertible / invocability over generated type pairs and argument lists with g++ and clang++ in C++17/20/23",
    text="Theorems C16_extents_rules, C16_implicit_extents_total (an implicit extents conversion has no precondition: every source value satisfies it), C16_dyn_to_static_has_precondition (converse for dynamic->static), C16_left_right_only_rank_le_1 / _exists_, C16_stride_to_left_right_explicit, C16_same_layout_follows_extents, C16_implicit_mapping_total (implicit left->left / right->right conversion yields the same valid mapping), C16_default_accessor, C16_mdspan, C16_extents_pack, C16_call, C16_mdspan_pack. Correspondence: ~2200 (thorough 20000) generated queries - ordered pairs of extents / mapping (5 layouts, padding values) / accessor / mdspan types and argument lists (all integer widths, double, classes with noexcept / throwing / no conversion; counts rank, rank_dynamic, off by one) for every constructor and call operator - is_constructible / is_convertible / invocability compared with the rule model (C++17: conditional explicit off).",
    ref="4/C16", note=NOTE_COMMON + " Partial in one respect: that the compilers implement overload resolution and the traits is trusted; hard-error mandates (static_assert) are not queried; the explicitness of padded-layout conversions is modelled as implemented."),
+ "C17": dict(cat="proof", tech="Coq deduction table (which type each CTAD form yields, dextents recursion, member-type and noexcept tables) with consistency theorems; compile-time correspondence: decltype of every CTAD form, member typedefs and noexcept(expr) printed through a canonical type describer and compared with the table, g++ and clang++, C++17/20/23",
+   text="Theorems C17_dextents, C17_dextents_rank, C17_pack_deduction (dextents<size_t,N> for any integer argument types), C17_carried, C17_pointer_and_array, C17_size_type_counterpart - consistency facts about the table; the substance of C17 is the comparison. Correspondence: ~900 (thorough 8000) generated queries: every CTAD form over argument-type combinations, dextents<I,N>, member types of extents / mapping / mdspan / mdarray instantiations, noexcept of the operations the C++23 text declares noexcept.",
+   ref="4/C17", note=NOTE_COMMON + " Partial: thin theorem content (specification table); CTAD and noexcept evaluation by the compilers are trusted; padded-layout constructors are not in the noexcept table."),
 }
 PENDING_REASON = "check under construction in this session (Coq theorems and correspondence driver not yet committed); not claimed until both exist"
 
